@@ -270,11 +270,11 @@ theorem readLine_delim (delim : UInt8) (pre post rest : Bytes) (hpre : ∀ b ∈
   exact ⟨by simpa [readLineDelim] using gen1 pre [] hpre, by simpa [readLineDelim] using gen2 rest [] hrest⟩
 
 /-- **readLine_delim_total**: `readLine(char)` through an object whose stream cannot be read (opened for writing) comes
-    back at once with the empty string and leaves the object alone (repair 95952ce: it used to loop forever);
+    back at once with the empty string, only the error indicator set (repair 95952ce: it used to loop forever);
     on a readable stream it consumes at most what is there (the model function is structurally recursive on the
     unread bytes, so it always returns) -/
 theorem readLine_delim_total (h : Handle) (delim : UInt8) :
-    (h.sm.canRead = false → hreadLineDelim h delim = ([], h)) ∧
+    (h.sm.canRead = false → hreadLineDelim h delim = ([], { h with err := true })) ∧
     (h.sm.canRead = true → (hreadLineDelim h delim).1.length ≤ h.rs.rest.length) := by
   constructor
   · intro hc; simp [hreadLineDelim, hc]
@@ -293,6 +293,18 @@ theorem readLine_delim_total (h : Handle) (delim : UInt8) :
           omega
     have := gen h.rs.rest [] h.rs.eof
     simpa [hreadLineDelim, hc, readLineDelim] using this
+
+/-- **failed_read_ends**: after a read through a stream that cannot be read (an object that is open for writing),
+    `end()` is true — so the documented loop `while (!f.end()) f.readLine();` stops after its first iteration (repair
+    4bfeeba: `end()` used to look at `feof` only and the loop never ended); on a readable stream `end()` is the
+    end-of-file indicator, as before -/
+theorem failed_read_ends (h : Handle) (chunk : Nat) (delim : UInt8) :
+    (h.sm.canRead = false → hend (hreadLine chunk h).2 = true ∧ hend (hreadLineDelim h delim).2 = true ∧
+      (hreadLine chunk h).1 = ([], false)) ∧
+    (h.sm.canRead = true → h.err = false → hend (hreadLine chunk h).2 = (readLine chunk h.rs).2.eof) := by
+  constructor
+  · intro hc; simp [hend, hreadLine, hreadLineDelim, hc]
+  · intro hc he; simp [hend, hreadLine, hc, he]
 
 -- hypotheses are satisfiable / the statements are not vacuous: a 3-byte chunk on "ab\r\ncd"
 example : readLine 3 ⟨[97, 98, 13, 10, 99, 100], false⟩ = (([97, 98], true), ⟨[99, 100], false⟩) := by
